@@ -347,6 +347,61 @@ func main() {
 			}
 		}
 	}
+	{ // long-history churn: ONE Sorted, tens of thousands of calls over 60 values
+		n := ev.Pick(r, 40000, 400000)
+		s := slices.NewSortedOrdered[int]()
+		var model []int
+		var g enum.LCG = 3
+		for i := 0; i < n; i++ {
+			v, op := g.Next(60), g.Next(8)
+			if ev.Tracing() {
+				ev.Trace(map[string]any{"family": "churn", "step": i, "op": op, "value": v})
+			}
+			lo := sort.SearchInts(model, v)
+			present := lo < len(model) && model[lo] == v
+			bad := ""
+			switch {
+			case op < 3 && len(model) < 150:
+				if got := s.Add(v); got != lo {
+					bad = fmt.Sprintf("Add(%d) = %d, want %d", v, got, lo)
+				}
+				model = append(model, 0)
+				copy(model[lo+1:], model[lo:])
+				model[lo] = v
+			case op < 6:
+				want := -1
+				if present {
+					want = lo
+				}
+				if got := s.Remove(v); got != want {
+					bad = fmt.Sprintf("Remove(%d) = %d, want %d", v, got, want)
+				}
+				if present {
+					model = append(model[:lo], model[lo+1:]...)
+				}
+			case op == 6 && len(model) > 0:
+				k := g.Next(len(model))
+				s.RemoveAt(k)
+				model = append(model[:k], model[k+1:]...)
+			default:
+				want := -1
+				if present {
+					want = lo
+				}
+				if got := s.Index(v); got != want || s.Contains(v) != present {
+					bad = fmt.Sprintf("Index(%d) = %d, want %d", v, got, want)
+				}
+			}
+			if bad == "" && (s.Len() != len(model) || (i%97 == 0 && fmt.Sprint(model) != s.String())) {
+				bad = fmt.Sprintf("contents %s, want %v", s.String(), model)
+			}
+			if bad != "" {
+				r.Report(ev.Violation{Sig: "family|churn", Msg: fmt.Sprintf("call %d of a long history on one Sorted: %s", i, bad), Replay: map[string]any{"family": "churn", "step": i}})
+				break
+			}
+		}
+		r.Set("churn_family_operations", n)
+	}
 	r.Set("large_size_family_calls", famCalls)
 	// nil / uninitialised receivers
 	var ns *slices.Sorted[int]
